@@ -772,8 +772,58 @@ def replay_findings(chk, workdir, stats):
 
 
 # ------------------------------------------------------------------------------------------------ run
+REPEAT_FAMILIES = [
+    # (metadata, script B - repeated, script A - run in between on the SAME provider object)
+    ({"staging.orders": ["order_id", "amount", "customer", "ts"]},
+     "insert into mart.t2 select * from staging.orders",
+     "create table staging.orders as select order_id, amount from raw.orders;\ninsert into mart.t3 select * from staging.orders"),
+    ({"s.a": ["k", "v"], "s.b": ["k", "w"]},
+     "insert into s.out1 select * from s.a join s.b on a.k = b.k",
+     "create table s.a as select k from s.seed;\nselect * from s.a"),
+    ({"db.x": ["c1", "c2", "c3"]},
+     "insert into db.y select c1, c2 from db.x;\ninsert into db.z select * from db.y",
+     "create view db.y as select c3 from db.x;\ninsert into db.w select * from db.y"),
+]
+
+
+def part_repeat_shared_provider(chk):
+    """"identical ... in every repetition": the same script analysed again with the SAME provider object, with another script
+    analysed in between, gives the same answer (seeded change C11-4: a lookup cache on the provider that outlives the session)"""
+    import warnings
+    from sqllineage.runner import LineageRunner
+    from sqllineage.core.metadata.dummy import DummyMetaDataProvider
+
+    def view(sql, d, prov):
+        with warnings.catch_warnings():
+            warnings.simplefilter("ignore")
+            lr = LineageRunner(sql, dialect=d, metadata_provider=prov)
+            return {"source": [str(t) for t in lr.source_tables], "target": [str(t) for t in lr.target_tables],
+                    "paths": sorted([str(c) for c in p] for p in lr.get_column_lineage())}
+    n = 0
+    for md, b, a in REPEAT_FAMILIES:
+        for d in ("ansi", "non-validating"):
+            prov = DummyMetaDataProvider(dict(md))
+            try:
+                first = view(b, d, prov)
+                view(a, d, prov)
+                again = view(b, d, prov)
+                fresh = view(b, d, DummyMetaDataProvider(dict(md)))
+            except Exception as e:  # noqa
+                chk.stale.append({"kind": "repeat-shared-provider", "error": type(e).__name__, "sql": b, "dialect": d})
+                continue
+            n += 1
+            chk.count("repeat:" + canon_json([b, a, d]), bool(first["paths"]))
+            if not (first == again == fresh):
+                chk.violation("the same script gives a different answer when repeated on the same provider after another script",
+                              {"kind": "repeat-shared-provider", "metadata": md, "sql": b, "between": a, "dialect": d,
+                               "first": first, "again": again, "fresh": fresh})
+                return n
+    return n
+
+
 def run(chk):
     drv = Driver() if chk.lean.driver_ok else None
+    chk.coverage["repeat_shared_provider_runs"] = part_repeat_shared_provider(chk)
     if drv is None:
         chk.stale.append({"kind": "driver", "why": "model driver does not build"})
     seeds = seeds_for(chk)
@@ -968,6 +1018,10 @@ def correspondence(chk, drv, inputs, res, seeds, cl):
 
 def replay(chk, obj):
     r = obj["replay"]
+    if r.get("kind") == "repeat-shared-provider":
+        n0 = len(chk.violations)
+        part_repeat_shared_provider(chk)
+        return 1 if len(chk.violations) > n0 else 0
     if r.get("kind") == "seed-diff":
         case = {k: r[k] for k in ("sql", "dialect", "metadata", "config", "env") if r.get(k) is not None}
         a, b = r["seeds"]
